@@ -7,10 +7,13 @@ import (
 	"os"
 	"path/filepath"
 	"sort"
+	"sync"
+	"sync/atomic"
+	"time"
 
 	"github.com/emitter-io/emitter/internal/event"
-	"github.com/emitter-io/emitter/internal/service/cluster"
 	"github.com/emitter-io/emitter/internal/event/crdt"
+	"github.com/emitter-io/emitter/internal/service/cluster"
 	"github.com/emitter-io/emitter/internal/zzverif/vlib"
 	"github.com/weaveworks/mesh"
 )
@@ -266,6 +269,50 @@ func history(durable bool, n int, steps int) (string, map[string]interface{}) {
 
 // ---- C14: ban / unban / use / restart / merge-into-second-broker ---------------------------------
 
+// banRace: lookups of a key run concurrently with its ban / unban toggles; every answer read right
+// after an acknowledged toggle must already show it (a lookup that started earlier must not put the
+// old record back into the read cache).
+func banRace() (string, map[string]interface{}) {
+	dir, _ := os.MkdirTemp(cfg.Out, "banrace")
+	defer os.RemoveAll(dir)
+	a := event.NewState(dir)
+	defer a.Close()
+	k := event.Ban("raced-key")
+	var stop int32
+	var wg sync.WaitGroup
+	for g := 0; g < 8; g++ {
+		wg.Add(1)
+		go func() {
+			defer wg.Done()
+			for atomic.LoadInt32(&stop) == 0 {
+				a.Has(&k)
+			}
+		}()
+	}
+	setClock(1000)
+	toggles, wrong := 0, 0
+	deadline := time.Now().Add(1500 * time.Millisecond)
+	clk := int64(1000)
+	for time.Now().Before(deadline) {
+		clk++
+		setClock(clk)
+		a.Add(&k)
+		if !a.Has(&k) {
+			wrong++
+		}
+		clk++
+		setClock(clk)
+		a.Del(&k)
+		if a.Has(&k) {
+			wrong++
+		}
+		toggles += 2
+	}
+	atomic.StoreInt32(&stop, 1)
+	wg.Wait()
+	return vlib.App("CBanRace", vlib.N(uint64(toggles)), vlib.N(uint64(wrong))), map[string]interface{}{"op": "lookups racing ban / unban toggles", "toggles": toggles, "stale_answers": wrong}
+}
+
 func banHistory(steps int) (string, map[string]interface{}) {
 	r := cfg.Rng
 	dir, _ := os.MkdirTemp(cfg.Out, "ban")
@@ -292,6 +339,7 @@ func banHistory(steps int) (string, map[string]interface{}) {
 				a.Add(&k)
 			}
 			ops = append(ops, vlib.App("BBan", vlib.N(kid), vlib.Z(clock), vlib.Bool(was)))
+			ops = append(ops, vlib.App("BExpiry", vlib.N(kid), vlib.Bool(a.VerifBanExpires(&k))))
 		case x < 44: // unban
 			clock++
 			setClock(clock)
@@ -300,6 +348,7 @@ func banHistory(steps int) (string, map[string]interface{}) {
 				a.Del(&k)
 			}
 			ops = append(ops, vlib.App("BUnban", vlib.N(kid), vlib.Z(clock), vlib.Bool(was)))
+			ops = append(ops, vlib.App("BExpiry", vlib.N(kid), vlib.Bool(a.VerifBanExpires(&k))))
 		case x < 80: // use: Authorize consults Contains
 			ops = append(ops, vlib.App("BUse", vlib.N(kid), vlib.Bool(a.Has(&k))))
 		case x < 88: // restart on the same directory
@@ -398,7 +447,11 @@ func main() {
 			t, h := banHistory(10 + r.Intn(30))
 			sh.Add(t, h, "ban-history", true)
 		}
-		sh.Finish("random sequences of ban / unban / use on broker A over a real durable state directory, restarts of A on the same directory after any prefix, and full-state merges into a second durable broker B that has or has not looked the key up before; non-trivial: all (every history has >= 10 operations)")
+		for i := 0; i < 2; i++ {
+			t, h := banRace()
+			sh.Add(t, h, "ban-race", true)
+		}
+		sh.Finish("random sequences of ban / unban / use on broker A over a real durable state directory, restarts of A on the same directory after any prefix, and full-state merges into a second durable broker B that has or has not looked the key up before; the persisted record's expiry after every ban / unban; two runs of 8 concurrent readers against 1.5 s of ban / unban toggles; non-trivial: all (every history has >= 10 operations)")
 		return
 	}
 	for i := 0; i < 150*cfg.Mult; i++ {
